@@ -27,6 +27,7 @@ func (P) Generate(g *core.Gen) {
 	genEp(g)
 	genConc(g)
 	genPeer(g)
+	genLoop(g)
 	if g.Thorough() {
 		for _, l := range bigVectors {
 			kase(g, "vec-big", true, l)
@@ -757,5 +758,34 @@ func genPeer(g *core.Gen) {
 			kase(g, fmt.Sprintf("peer-out%d-in%d-samenet%d", c[0], c[1], c[2]), true,
 				fmt.Sprintf("C19 peerhs %d %d %s %s %d", c[0], c[1], on, in, 1+r.Intn(2)))
 		}
+	}
+}
+
+// genLoop: whole sessions at property level (see execLoop).
+func genLoop(g *core.Gen) {
+	r := g.R
+	for i := 0; i < g.N(6, 200); i++ {
+		gl := func() int {
+			if r.Chance(1, 3) {
+				return int(r.Pick(0, 1, 4094, 4095))
+			}
+			return r.Intn(4096)
+		}
+		dec := func() string {
+			var d []string
+			for j := r.Intn(4); j > 0; j-- {
+				d = append(d, fmt.Sprint(r.Pick(0, 1, 16, int64(r.Intn(300)))))
+			}
+			return joinOr(d, ",")
+		}
+		pk := func() string {
+			var p []string
+			for j := r.Intn(7); j > 0; j-- {
+				p = append(p, fmt.Sprintf("%d:%d:%d", randLen(r, 0), r.Intn(256), r.Intn(5)/4))
+			}
+			return joinOr(p, ";")
+		}
+		kase(g, "loop", true, fmt.Sprintf("C19 loop %s %s %s %d %d %s %s %s %s", pickMagic(r), hx(r.Bytes(16)), hx(r.Bytes(16)),
+			gl(), gl(), dec(), dec(), pk(), pk()))
 	}
 }
